@@ -76,7 +76,7 @@ def large_systems(chk, classes):
             f = np.clip(np.asarray(p_, dtype=float), 0, None) + 0.05 + 0.02 * rs.rand(len(p_))
             data.append((100 + 10 * j, f / f.sum()))
         q = np.concatenate([f for _, f in data])
-        for scale_v, mode in ((1.0, "identity"), (1.0, "custom"), (1.5, "identity"), (1.5, "custom")):
+        for scale_v, mode in ((1.0, "identity"), (1.0, "custom"), (1.0, "custom0"), (1.5, "identity"), (1.5, "custom")):
             # without the built-in parametrisation the trace is free: 1.5 x the variables is a legitimate evaluation point at
             # which predicted "probabilities" exceed one (the losses are defined there: the optimisers evaluate them off the
             # physical set)
@@ -91,6 +91,10 @@ def large_systems(chk, classes):
                 M = rs.randn(m, m)
                 Ws.append(np.eye(m) if mode == "identity" else M @ M.T + (1 + j) * np.eye(m))
                 wre.append(1.0 if mode == "identity" else 1.0 + 0.5 * j)
+                if mode == "custom0" and j == 1:
+                    # a schedule switched off: weight exactly zero (a legitimate custom weight)
+                    Ws[-1] = np.zeros((m, m))
+                    wre[-1] = 0.0
             Wb = np.zeros((len(q), len(q)))
             for j in range(len(sizes)):
                 Wb[offs[j]:offs[j + 1], offs[j]:offs[j + 1]] = Ws[j]
@@ -105,7 +109,7 @@ def large_systems(chk, classes):
                 def bad(clause, msg):
                     chk.violation("large:%s:%s:%s:%s" % (clause, fam, mode, name), "%s [%s]" % (msg, tagk), dict(config=name, para=para, mode=mode, family=fam))
                 try:
-                    opt = O(mode_weight="custom", weights=[float(x) for x in wre] if is_re else [w.copy() for w in Ws]) if mode == "custom" else O(mode_weight="identity")
+                    opt = O(mode_weight="custom", weights=[float(x) for x in wre] if is_re else [w.copy() for w in Ws]) if mode != "identity" else O(mode_weight="identity")
                     loss = L()
                     loss.set_from_standard_qtomography_option_data(qt, opt, [(n, f.copy()) for n, f in data], True, not fam.endswith("fast"))
                     val, grad = float(loss.value(v.copy())), np.asarray(loss.gradient(v.copy()), dtype=float)
